@@ -609,6 +609,28 @@ def tail_maps(n, is_result):
         return n
     if k == "ret" and n.get("e") is not None:
         return dict(n, e=tail_maps(n["e"], is_result))
+    if k == "call" and n.get("ctor") and len(n.get("args") or []) == 1 and \
+            (n.get("f") or "").rsplit("::", 1)[-1] in ("Ok", "Some", "Err"):
+        a0 = n["args"][0]
+        while isinstance(a0, dict) and a0.get("k") == "block" and not a0.get("stmts") and a0.get("expr") is not None:
+            a0 = a0["expr"]
+        # Ok(if c { a } else { b })  is  if c { Ok(a) } else { Ok(b) }   (same for match)
+        if isinstance(a0, dict) and a0.get("k") == "if" and a0.get("else") is not None:
+            def wrap(e):
+                if isinstance(e, dict) and e.get("k") == "block":
+                    if e.get("expr") is None:
+                        return e
+                    return dict(e, expr=wrap(e["expr"]))
+                return tail_maps(dict(n, args=[e]), is_result)
+            return dict(a0, then=wrap(a0["then"]), **{"else": wrap(a0["else"])})
+        if isinstance(a0, dict) and a0.get("k") == "match":
+            def wrapm(e):
+                if isinstance(e, dict) and e.get("k") == "block":
+                    if e.get("expr") is None:
+                        return e
+                    return dict(e, expr=wrapm(e["expr"]))
+                return tail_maps(dict(n, args=[e]), is_result)
+            return dict(a0, arms=[dict(a, body=wrapm(a.get("body"))) for a in a0.get("arms") or []])
     if k == "mcall" and n.get("m") == "map" and len(n.get("args") or []) == 1:
         a = n["args"][0]
         f = n.get("f") or ""
